@@ -993,8 +993,14 @@ func runGCCase(r *vrep.Report, cs gcCase) {
 	}
 	full := out.err == nil
 	probs, expected, outcomes := judge(b.regs, before, after, sp, full)
+	seenSig := map[string]bool{}
 	for _, p := range probs {
-		r.Violate(p.Sig, cs.String()+": "+p.Msg, detail(map[string]any{"gc_error": es(out.err)}))
+		// one witness per signature and case
+		if seenSig[p.Sig] {
+			continue
+		}
+		seenSig[p.Sig] = true
+		r.Violate(p.Sig, cs.String()+": "+p.Msg, detail(map[string]any{"gc_error": es(out.err), "problems_in_this_case": len(probs)}))
 	}
 	r.Eval(len(before.locks) + len(keys) + len(b.regs))
 	if out.err != nil {
